@@ -204,6 +204,123 @@ def define(text, name):
     return m.group(1).strip()
 
 
+
+def strip_preproc(body):
+    """Take the C (not C++) branch of #ifndef __cplusplus / #ifdef __cplusplus blocks, drop the debug-print
+    blocks (#ifndef NO_YAEP_DEBUG_PRINT) and the verification hooks (#ifdef YAEP_VERIF)."""
+    out, stack = [], []     # stack of booleans: are we emitting
+    for line in body.split('\n'):
+        t = line.strip()
+        if t.startswith('#ifndef __cplusplus'):
+            stack.append(['c', True])
+        elif t.startswith('#ifdef __cplusplus'):
+            stack.append(['c', False])
+        elif t.startswith('#ifndef NO_YAEP_DEBUG_PRINT') or t.startswith('#ifdef YAEP_VERIF'):
+            stack.append(['d', False])
+        elif t.startswith('#if'):
+            stack.append(['o', True])
+        elif t.startswith('#else'):
+            if stack and stack[-1][0] in ('c', 'd'):
+                stack[-1][1] = not stack[-1][1]
+        elif t.startswith('#endif'):
+            if stack:
+                stack.pop()
+        elif all(e[1] for e in stack):
+            out.append(line)
+    return '\n'.join(out)
+
+
+def block_after(text, pos):
+    """text[pos] is '{' : returns (inside, index after the closing brace)."""
+    assert text[pos] == '{'
+    depth, i = 1, pos + 1
+    while i < len(text) and depth:
+        if text[i] == '{':
+            depth += 1
+        elif text[i] == '}':
+            depth -= 1
+        i += 1
+    return text[pos + 1:i - 1], i
+
+
+def parse_protocol(yaep_c):
+    """The init / fin / flag protocol of yaep_parse around its setjmp: the calls and flag assignments before the
+    handler is installed, the handler, and the calls and flag assignments after it up to `return 0'."""
+    body = strip_preproc(func_body(yaep_c, 'yaep_parse'))
+    m = re.search(r'if\s*\(\s*\(\s*code\s*=\s*setjmp\s*\(\s*error_longjump_buff\s*\)\s*\)\s*!=\s*0\s*\)\s*\{', body)
+    if not m:
+        raise Fail('yaep_parse: setjmp handler not found')
+    handler_src, after = block_after(body, m.end() - 1)
+    pre_src = body[:m.start()]
+    # the protocol part of the prologue starts after the last assignment of the callbacks/outputs
+    k = pre_src.rfind('*ambiguous_p')
+    if k < 0:
+        raise Fail('yaep_parse: prologue anchor not found')
+    pre_src = pre_src[pre_src.index(';', k) + 1:]
+    post_src = body[after:]
+    r = post_src.find('return 0')
+    if r < 0:
+        raise Fail('yaep_parse: final return not found')
+    post_src = post_src[:r]
+    decl = re.search(r'(volatile\s+)?int\s+tok_init_p\s*,\s*parse_init_p\s*;', body)
+    if not decl:
+        raise Fail('yaep_parse: declaration of the flags not found')
+    flags = ['tok_init_p', 'parse_init_p']
+
+    def steps(src, where):
+        out = []
+        # drop an `if (cond) yaep_error (...);' statement (a call that only fails) but keep it as a failing call
+        src = re.sub(r'if\s*\([^;{}]*\)\s*yaep_error\s*\([^;]*\)\s*;', ' yaep_error_if (); ', src)
+        for st in [x.strip() for x in src.split(';')]:
+            if not st:
+                continue
+            st = re.sub(r'\s+', ' ', st)
+            mm = re.fullmatch(r'((?:\w+ = )+)(TRUE|FALSE)', st)
+            if mm:
+                for f in re.findall(r'(\w+) =', mm.group(1)):
+                    if f not in flags:
+                        raise Fail('yaep_parse (%s): assignment to unknown flag %s' % (where, f))
+                    out.append('PSet "%s" %s' % (f, 'true' if mm.group(2) == 'TRUE' else 'false'))
+                continue
+            mm = re.fullmatch(r'(?:[*\w]+ = )?(\w+) \(([^()]*)\)(?: - \w+)?', st)
+            if mm:
+                if mm.group(1) in ('get_all_collisions', 'get_all_searches'):
+                    continue
+                out.append('PCall "%s"' % mm.group(1))
+                continue
+            if re.fullmatch(r'n_goto_successes = 0', st):
+                continue
+            raise Fail('yaep_parse (%s): statement not understood: %s' % (where, st[:60]))
+        return out
+
+    def hsteps(src):
+        out = []
+        src = re.sub(r'\s+', ' ', src)
+        for st in [x.strip() for x in src.split(';')]:
+            if not st or st.startswith('return'):
+                continue
+            mm = re.fullmatch(r'if \((\w+)\) (\w+) \(\)', st)
+            if mm:
+                out.append('HIf "%s" "%s"' % (mm.group(1), mm.group(2)))
+                continue
+            mm = re.fullmatch(r'(\w+) \(\)', st)
+            if mm:
+                out.append('HCall "%s"' % mm.group(1))
+                continue
+            raise Fail('yaep_parse (handler): statement not understood: %s' % st[:60])
+        return out
+    pre, post, hnd = steps(pre_src, 'prologue'), steps(post_src, 'body'), hsteps(handler_src)
+    # which prologue calls allocate (they run before the handler is installed, so they must not)
+    allocs = []
+    for c in pre:
+        mm = re.match(r'PCall "(\w+)"', c)
+        if mm:
+            fb = func_body(yaep_c, mm.group(1))
+            if re.search(r'\b(yaep_malloc|yaep_calloc|yaep_realloc|OS_CREATE|VLO_CREATE|OS_TOP_EXPAND|VLO_EXPAND|create_hash_table)\b', fb):
+                allocs.append(mm.group(1))
+    return pre, hnd, post, bool(decl.group(1)), allocs
+
+
 def zlit(v):
     v = int(v)
     return '(%d)' % v if v < 0 else str(v)
@@ -339,6 +456,17 @@ def main():
         if not m:
             raise Fail('%s: new size in expansion not found' % fn)
         L.append('Definition ht_new_size_%s (n : Z) : Z := %s.' % (tag, c_expr_to_gallina(m.group(1), ren)))
+    L.append('')
+
+    pre, hnd, post, vol, allocs = parse_protocol(yaep_c)
+    L.append('(* init / fin / flag protocol of yaep_parse around its setjmp (C branch, debug printing dropped) *)')
+    L.append('Inductive pstep := PCall (f : string) | PSet (flag : string) (v : bool).')
+    L.append('Inductive hstep := HCall (f : string) | HIf (flag : string) (f : string).')
+    L.append('Definition parse_prologue : list pstep := [%s]%%string.' % '; '.join(pre))
+    L.append('Definition parse_handler : list hstep := [%s]%%string.' % '; '.join(hnd))
+    L.append('Definition parse_body : list pstep := [%s]%%string.' % '; '.join(post))
+    L.append('Definition parse_flags_volatile : bool := %s.' % ('true' if vol else 'false'))
+    L.append('Definition parse_prologue_allocating_calls : list string := [%s]%%string.' % '; '.join('"%s"' % a for a in allocs))
     L.append('')
 
     open(out, 'w').write('\n'.join(L) + '\n')
